@@ -28,6 +28,10 @@ func (pass *HintObject) processObject(_ *Visitor, _ *ast.Schema, object ast.Obje
 		return object, nil
 	}
 
+	if object.Type.Hints == nil {
+		object.Type.Hints = make(ast.JenniesHints, len(pass.Hints))
+	}
+
 	hintsTrail := make([]string, 0, len(pass.Hints))
 	for hint, val := range pass.Hints {
 		object.Type.Hints[hint] = val
